@@ -10,9 +10,8 @@ import copy, hashlib, os, subprocess, threading
 import vlib, filegen, zckfmt
 
 THEOREMS = ["C02_read_close_success_is_verified_content_zstd", "C02_declared_sizes", "C02_unzck_exit0_output_zstd",
-            "C02_unzck_failure_no_output"]
+            "C02_read_close_success_is_verified_content", "C02_unzck_exit0_output", "C02_unzck_failure_no_output"]
 ASSUMPTIONS = [
-    "PARTIAL: the read/close and unzck theorems are proved for unit-decoded (zstd) files, every dictionary/flag combination; the streaming path of uncompressed files (compression type 0) is covered by the correspondence run and the specification oracle only",
     "model Read/CompRead.v is a hand transcription of comp.c / zck.c / hash.c / zstd.c / nocomp.c / io.c (read path), tied by differential execution on valid files and mutants",
     "H (hash) and zdecomp (one-shot zstd decoder, with the produced length) are parameters of model and spec, instantiated with OpenSSL and libzstd in the run; no property of them is assumed",
     "file reads are fault free: read() returns min(requested, remaining) bytes (I/O faults are property C12); allocation and zstd context creation do not fail",
